@@ -51,7 +51,7 @@ Clause(m, ev) ==
 
 MonStep(m, ev) ==
   [m EXCEPT
-    !.bad = Clause(m, ev),
+    !.bad = IF m.bad # <<>> THEN m.bad ELSE Clause(m, ev),     \* the first violated clause is kept
     !.exp = IF ev.k = "exp" THEN Append(@, ev) ELSE @,
     !.nimp = IF ev.k = "imp" THEN @ + 1 ELSE @,
     !.wit = @ \cup (IF ev.k = "exp"
